@@ -47,6 +47,8 @@ pub struct AllocM {
     pub off_seen: bool,
     /// last observed raw contents of never-written slots of an uninitialised allocation
     pub observed: Vec<Option<u32>>,
+    /// property families of every op that created, converted or operated on this allocation
+    pub fams: u32,
 }
 
 #[derive(Default)]
